@@ -224,7 +224,7 @@ def _failed_file(out):
 def theorem_names(prop_id):
     path = os.path.join(COQ, 'theories', 'Props', prop_id + '.v')
     src = open(path).read()
-    return re.findall(r'^(?:Theorem|Example)\s+([A-Za-z0-9_\']+)', src, flags=re.M)
+    return re.findall(r'^\s*(?:Theorem|Example)\s+([A-Za-z0-9_\']+)', src, flags=re.M)
 
 
 def print_assumptions(prop_id):
